@@ -99,6 +99,9 @@ def cases(shard, tier):
             yield {'code': c, 'len': n}
         for n, pos in ((1, 0), (5, 0), (5, 2), (5, 4), (130, 129)):
             yield {'code': c, 'len': n, 'nonascii': pos}
+        # contents rather than lengths: blanks at the ends, control characters, texts that look like numbers
+        for text in ('ends with blank ', ' starts', '  ', 'a\nb', 'tab\there', '12', '1E5', '-0', 'NaN', "q'uote\"", '\x00', '\x7f', 'x' * 59 + ' '):
+            yield {'code': c, 'len': len(text), 'text': text}
     elif c == 'STATUS':
         for v in (0, 1, True, False, 2, -1, 255, 256):
             yield {'code': c, 'v': v}
@@ -340,6 +343,8 @@ def run_case(case):
     if c in ('IDENT', 'ASCII'):
         n = case['len']
         s = ''.join(chr(0x21 + (i * 7) % 94) for i in range(n))
+        if 'text' in case:
+            s = case['text']
         if 'nonascii' in case:
             s = s[:case['nonascii']] + 'é' + s[case['nonascii'] + 1:]
         b, err = enc(c, s)
